@@ -71,7 +71,7 @@ def never_needs(moves) -> bool:
 
 
 class Side:
-    __slots__ = ("backend", "heap", "colmap", "alive", "why", "marker", "datadef", "frames", "tainted", "pool")
+    __slots__ = ("backend", "heap", "colmap", "alive", "why", "marker", "datadef", "frames", "tainted", "pool", "chains")
 
     def __init__(self, backend):
         self.backend = backend
@@ -84,6 +84,7 @@ class Side:
         self.frames = []        # exported frames per heap index (None if not exported)
         self.tainted = False    # a data failure was already recorded on this side of this behaviour prefix
         self.pool = None        # C10: expression objects shared along the behaviour (json key -> ColExpr)
+        self.chains = {}        # opts['chain']: heap position -> (root heap position, table-less verb chain that builds it)
 
     def copy(self):
         s = Side(self.backend)
@@ -93,6 +94,7 @@ class Side:
         s.frames = list(self.frames)
         s.tainted = self.tainted
         s.pool = self.pool      # deliberately shared: one python object per specification expression
+        s.chains = dict(self.chains)    # the chain OBJECTS are shared with the sibling prefixes (a stored chain extended several times)
         return s
 
 
@@ -474,6 +476,24 @@ class Replayer:
                         self.fail(node, beh, k, bk, "target", f"ColExpr.export of ({n} + 1): {got[:4]} vs {want[:4]}")
                 except Exception as e:  # noqa: BLE001
                     self.fail(node, beh, k, bk, "target", f"ColExpr.export of ({n} + 1) raised {exc_class(e)}: {e}")
+                # the same column through a reference taken from an EARLIER table, mentioned first: the expression lives in the
+                # latest table it mentions (the rows of `tbl`, not those of the table the old reference was taken from)
+                side = node.sides[bk]
+                old = side.colmap.get(obs["ids"][idx]) if idx < len(obs["ids"]) else None
+                if old is not None and getattr(old, "_ast", None) is not getattr(tbl, "_ast", None) and getattr(old, "_uuid", None) == tbl[n]._uuid:
+                    try:
+                        ser = (old + tbl[n]).export(R.pdt.Polars())
+                        got = [[v] for v in ser.to_list()]
+                        want = [[None if r[names.index(n)] is None else 2 * r[names.index(n)]] for r in CMP.frame_rows(df)]
+                        self.stats["expr_export_two_refs"] = self.stats.get("expr_export_two_refs", 0) + 1
+                        if len(got) != len(want) or not self.rows_equal(want, got, obs, bk, single=idx):
+                            self.fail(node, beh, k, bk, "target", f"ColExpr.export of (<earlier reference to {n}> + {n}): {len(got)} values {got[:4]} vs {len(want)} rows {want[:4]}")
+                    except ValueError as e:
+                        # the documented refusal: no table of the expression contains the others (e.g. the reference predates a collect())
+                        if "no common ancestor" not in str(e):
+                            self.fail(node, beh, k, bk, "target", f"ColExpr.export of (<earlier reference to {n}> + {n}) raised {exc_class(e)}: {e}")
+                    except Exception as e:  # noqa: BLE001
+                        self.fail(node, beh, k, bk, "target", f"ColExpr.export of (<earlier reference to {n}> + {n}) raised {exc_class(e)}: {e}")
                 return
 
     def order_cls(self, obs, bk, n):
@@ -517,8 +537,9 @@ class Replayer:
 
             before_t = [None if t is None else IM.fp_table(t) for t in side.heap]
             before_e = {key: IM.fp_expr(x) for key, x in side.pool.items() if not key.startswith("__")}
+        tap = [] if self.opts.get("chain") else None
         try:
-            res = R.apply_move(m, side.heap, side.colmap, side.pool)
+            res = R.apply_move(m, side.heap, side.colmap, side.pool, tap) if tap is not None else R.apply_move(m, side.heap, side.colmap, side.pool)
         except R.MissingRef as e:
             side.alive, side.why = False, f"missing-ref {e}"
             self.stats["missing_ref"] += 1
@@ -591,7 +612,50 @@ class Replayer:
         if bk != "polars" and m["v"] == "slice_head" and side.marker:
             # LIMIT in an outer query without its own ORDER BY: which rows survive is not determined
             side.datadef = False
-        self.project_and_compare(node, beh, k, side, res, obs, step)
+        df = self.project_and_compare(node, beh, k, side, res, obs, step)
+        if tap is not None and len(tap) == 1 and not subq:
+            self.check_chain(node, beh, k, side, m, tap[0], res, df, obs)
+
+    def check_chain(self, node, beh, k, side, m, call, res, df, obs):
+        """C02 / C10: the verbs of a pipeline composed without a table (`verb1(..) >> verb2(..)`, kept in a variable and extended once
+        per continuation) and applied to the source afterwards build the same table as piping the table through them one by one."""
+        R = self.R
+        bk = side.backend
+        base = m["i"] - 1
+        root, parent_chain = side.chains.get(base, (base, None))
+
+        def col_ids(x):
+            if isinstance(x, dict):
+                if x.get("k") == "col" and "id" in x:
+                    yield x["id"]
+                for v in x.values():
+                    yield from col_ids(v)
+            elif isinstance(x, list):
+                for v in x:
+                    yield from col_ids(v)
+
+        # a reference to a column that an EARLIER call of the chain creates denotes the column of the table built step by step, which
+        # the table built inside the chain does not contain: such a continuation starts a new chain at its own table
+        root_ids = {cid for cid, c in side.colmap.items() if getattr(c, "_uuid", None) in getattr(side.heap[root]._cache, "cols", {})} if side.heap[root] is not None else set()
+        if parent_chain is not None and any(c not in root_ids for c in col_ids(m)):
+            root, parent_chain = base, None
+        try:
+            chain = call if parent_chain is None else parent_chain >> call
+        except Exception as e:  # noqa: BLE001
+            self.fail(node, beh, k, bk, "chain", f"composing the verb chain raised {exc_class(e)}: {e}")
+            return
+        side.chains[len(side.heap) - 1] = (root, chain)
+        if df is None or side.heap[root] is None:
+            return
+        try:
+            d2 = side.heap[root] >> chain >> R.export(R.pdt.Polars())
+        except Exception as e:  # noqa: BLE001
+            self.fail(node, beh, k, bk, "chain", f"source >> (verb chain of {k + 1 if parent_chain is not None else 1} call(s)) raised {exc_class(e)}: {str(e)[:300]}")
+            return
+        self.stats["chains"] = self.stats.get("chains", 0) + 1
+        if list(d2.columns) != list(df.columns) or d2.height != df.height or (side.datadef and not self.frames_equal(df, d2, obs, bk)):
+            self.fail(node, beh, k, bk, "chain", f"source >> verb chain gives columns {list(d2.columns)} / {d2.height} rows, piping the table through the "
+                                                f"same calls one by one {list(df.columns)} / {df.height} rows (or other values)")
 
     def check_immut(self, node, beh, k, side, m, before_t, before_e):
         """C10: nothing that existed before the call changed; re-running earlier pipelines gives the same result."""
